@@ -227,7 +227,10 @@ func (e *exec) resolve(mode string, k int) (uint32, []*reqState) {
 	if id%2 == 0 {
 		id++
 	}
-	return id, nil
+	if id > 1<<31-1 {
+		id = 1<<31 - 1
+	}
+	return id, e.byID[id]
 }
 
 func (e *exec) touch(rs []*reqState) {
@@ -316,6 +319,9 @@ func (e *exec) doReq(st Step) {
 	cls := classify(r.H)
 	e.mu.Lock()
 	id := e.nextID(r)
+	if id > 1<<31-1 {
+		id = 1<<31 - 1 // the id space is exhausted (31 bits on the wire): only repeated ids are left
+	}
 	rs := &reqState{seq: len(e.reqs), id: id, path: cls.path, cls: cls, sentAt: time.Now(), es: r.ES, mutated: len(st.Mut) > 0}
 	limit := 16 << 20
 	if e.plan.MaxHdr > 0 {
